@@ -102,6 +102,14 @@ func intProgram(t numType, pr params) program {
 	p.unaryGroup(t, "incfield", "var s struct{ f "+T+" }; s.f = a; s.f++; r = s.f", "GA", "RA")
 	p.unaryGroup(t, "decelem", "arr := [2]"+T+"{a, a}; arr[1]--; r = arr[1]", "GA", "RA")
 	p.unaryGroup(t, "negneg", "r = -(-a)", "GA", "RA")
+	// adjacent signs: the Go source has no parentheses, the JavaScript must not read -- / ++
+	p.unaryGroup(t, "adjacent neg neg", "r = - -a", "GA", "RA")
+	p.unaryGroup(t, "adjacent sub neg neg", "r = a - - -a", "GA", "RA")
+	p.unaryGroup(t, "adjacent plus plus", "r = + +a + +a", "GA", "RA")
+	p.unaryGroup(t, "adjacent neg plus neg", "r = -+-a", "GA", "RA")
+	p.unaryGroup(t, "adjacent not not", "r = ^ ^a", "GA", "RA")
+	p.unaryGroup(t, "adjacent neg conv neg", "r = -"+T+"(-a)", "GA", "RA")
+	p.unaryGroup(t, "adjacent keeps operand", "b := a; r = - -b; r += b", "GA", "RA")
 	p.unaryGroup(t, "double", "r = a + a", "GA", "RA")
 	p.unaryGroup(t, "square", "r = a * a", "GA", "RA")
 
@@ -301,6 +309,12 @@ func floatProgram(pr params) program {
 		p.unaryGroup(t, "plus", "r = +a", "GA"+sfx, "RA"+sfx)
 		p.unaryGroup(t, "inc", "r = a; r++", "GA"+sfx, "RA"+sfx)
 		p.unaryGroup(t, "dec", "r = a; r--", "GA"+sfx, "RA"+sfx)
+		p.unaryGroup(t, "adjacent neg neg", "r = - -a", "GA"+sfx, "RA"+sfx)
+		p.unaryGroup(t, "adjacent sub neg neg", "r = a - - -a", "GA"+sfx, "RA"+sfx)
+		p.unaryGroup(t, "adjacent plus plus", "r = + +a + +a", "GA"+sfx, "RA"+sfx)
+		p.unaryGroup(t, "adjacent neg plus neg", "r = -+-a", "GA"+sfx, "RA"+sfx)
+		p.unaryGroup(t, "adjacent neg conv neg", "r = -float"+sfx+"(-a)", "GA"+sfx, "RA"+sfx)
+		p.unaryGroup(t, "adjacent keeps operand", "b := a; r = - -b; r += b", "GA"+sfx, "RA"+sfx)
 		p.unaryGroup(t, "fma-like", "r = a*a + a", "GA"+sfx, "RA"+sfx)
 		p.unaryGroup(t, "tripleadd", "r = a + a + a", "GA"+sfx, "RA"+sfx)
 		p.unaryGroup(t, "muldiv", "r = a * 3 / 7", "GA"+sfx, "RA"+sfx)
@@ -397,6 +411,8 @@ func complexProgram(pr params) program {
 		if t.Bits == 64 {
 			ft = "float32"
 		}
+		p.unaryGroup(t, "adjacent neg neg", "r = - -a", "GA"+sfx, "RA"+sfx)
+		p.unaryGroup(t, "adjacent neg parts", "r = complex(- -real(a), - - -imag(a))", "GA"+sfx, "RA"+sfx)
 		p.unaryGroup(t, "swap", "r = complex(imag(a), real(a))", "GA"+sfx, "RA"+sfx)
 		p.unaryGroup(t, "conjbuild", "var re, im "+ft+" = real(a), -imag(a); r = complex(re, im)", "GA"+sfx, "RA"+sfx)
 		p.unaryGroup(t, "timesi", "r = a * complex(0, 1)", "GA"+sfx, "RA"+sfx)
